@@ -1,6 +1,8 @@
 //! mdk-verif-hopen: executes the real constructors / storage backends and records NDJSON traces for
 //! OpenTrace.tla (C13) and LinTrace.tla (C19). No verdicts here: TLC decides.
+mod lin;
 mod opencells;
+mod scan;
 mod store;
 
 use std::collections::HashMap;
@@ -51,6 +53,35 @@ fn main() {
         Some("poison") => {
             let lines = opencells::run_poison(seed);
             write_trace(&out, opencells::meta(5, &["p1", "p2", "p3", "p4", "p5"], 4, &dev_flags()), lines);
+        }
+        Some("scan") => {
+            let n: usize = get("n", "1").parse().unwrap();
+            let mut lines = vec![];
+            for i in 0..n {
+                lines.push(json!({"op":"Reset","files":[],"kr":"","lock":"free"}));
+                lines.extend(scan::run_history(seed, "keyring", i));
+                lines.push(json!({"op":"Reset","files":[],"kr":"","lock":"free"}));
+                lines.extend(scan::run_history(seed, "unenc", i));
+            }
+            write_trace(&out, opencells::meta(1, &["p1"], 1, &dev_flags()), lines);
+        }
+        Some("lin") => {
+            let cfg = lin::LinCfg {
+                seed,
+                n: get("n", "10").parse().unwrap(),
+                backend: get("backend", "both"),
+                max_threads: get("maxthreads", "8").parse().unwrap(),
+                total_ops: get("ops", "40").parse().unwrap(),
+                profiles: get("profiles", "mix").split(',').map(|x| x.to_string()).collect(),
+                stress_ms: get("stress_ms", "0").parse().unwrap(),
+            };
+            let (lines, _hang) = lin::run(&cfg);
+            let th: Vec<String> = (1..=16).map(|i| format!("t{i}")).collect();
+            let meta = json!({"op":"Meta","threads":th,"groups":["g1","g2","g3","g4"],"epochs":[1,2],"msgs":["m1","m2"],
+                              "names":["s1","s2"],"dev":dev_flags()});
+            write_trace(&out, meta, lines);
+            // hung threads (if any) are abandoned
+            std::process::exit(0);
         }
         _ => {
             eprintln!("usage: mdk-verif-hopen matrix|race|poison|scan|lin <out.ndjson> key=value...");
